@@ -117,6 +117,11 @@ def admission_terms(ctx, cfg):
                 b = X
                 for o in others:
                     b = ("pure", "min", (b, o))
+                from rules import deflate_proto as _dp
+                if _dp.find_match_clamps_with_size(ctx, cfg) and e[2][0][0] == "ref":
+                    # the callee limits the bound to the history it holds: min(dict.size, argument)
+                    szt = ("load", ("fld", e[2][0][1], "size", c.adt("deflate::core::DictOxide")["path"]), 0)
+                    b = ("pure", "min", (b, szt))
                 xs.add(b)
     out["deflate::core::compress_normal"] = (sorted(xs, key=repr), 0)
     return out
